@@ -80,6 +80,14 @@ RangeOfCells(cs) ==
 
 Ideal(toks, sst) == RangeOfCells(IdealCells(toks, sst))
 
+\* calamine's Range is dense: sheets whose bounding rectangle has more than `max` cells are not
+\* generated (a resource bound of the harness, not part of the property)
+AreaWithin(rg, max) ==
+  IF rg.cells = <<>> THEN TRUE
+  ELSE LET h == rg.end[1] - rg.start[1] + 1
+           w == rg.end[2] - rg.start[2] + 1
+       IN h <= max \div w
+
 --------------------------------------------------------------------------
 (* READER *)
 
